@@ -6,41 +6,255 @@ R06.3 classification: detonation branch iff vw > vJ, in both classes
 R06.4 v-^2 = min(vw^2, cs-^2) (hybrids leave at the sound speed); template v- = min(cb, vw)
 R06.5 weak-detonation branch: root bracketed between Tn and the minimiser of the same residual
 R06.6 fastest deflagration / slowest detonation / minimal velocity bookkeeping
+
+Recognition is by role: nested helper functions are identified as "the function handed to root_scalar / minimize_scalar", locals by what
+is assigned to them, temperatures as "element k of the tuple returned by findMatching" (through any local helper or unpacking), and
+expressions are compared through normal forms / terms.
 """
 from __future__ import annotations
 
 import ast
+import copy
 
 import sympy as sp
 
 from ..core import AnchorMissing, Check, Undecided, calls_in, dotted, kwarg, own_nodes, src, walk_guarded
-from ..hydro import HY, TM, SideTyper, drop_ite, fn, hydro_extractor, junction_terms, n, th, same_term
+from ..flow import CFG
+from ..hydro import HY, TM, SideTyper, attr_side, drop_ite, fn, hydro_extractor, junction_terms, n, th, same_term
+from ..nf import Ctx, eqx, has, match, nf, parse_pattern, same
 from ..terms import Extractor, is_zero
 
 LEVEL = "other"
+PRODUCERS = ("findMatching", "matchDeton", "matchDeflagOrHyb")       # return (v+, v-, T+, T-)
+ELEM_SIDE = {2: "+", 3: "-"}
+
+
+# ------------------------------------------------------------------------------------------------ role helpers
+
+
+def _pol(test, pos: str, neg: str | None = None, ctx=None):
+    """True: `test` holds iff the condition `pos` holds; False: iff it does not (`neg` = spelling of the negated condition); None: unrelated"""
+    if isinstance(test, ast.UnaryOp) and isinstance(test.op, ast.Not):
+        r = _pol(test.operand, pos, neg, ctx)
+        return None if r is None else not r
+    if eqx(test, pos, ctx):
+        return True
+    if neg is not None and eqx(test, neg, ctx):
+        return False
+    return None
+
+
+def _only_when(g: CFG, node, pos: str, neg: str | None, want: bool, ctx=None) -> bool:
+    """CFG node `node` is reached only through the branch of a test of condition `pos` on which the condition has truth value `want`"""
+    for t in g.nodes:
+        if g.kind.get(t) != "test":
+            continue
+        p = _pol(t, pos, neg, ctx)
+        if p is None:
+            continue
+        taken = (p == want)          # polarity of the test on which the condition == want
+        if g.must_pass(CFG.ENTRY, node, lambda q: q is t) and not g.reaches(g.branch(t, not taken), node, avoid=lambda q: q is t):
+            return True
+    return False
+
+
+def _never_returns_when(g: CFG, pos: str, neg: str | None, want: bool, ctx=None) -> bool:
+    """some test of condition `pos`: the branch on which the condition has truth value `want` cannot reach a normal exit (it raises)"""
+    for t in g.nodes:
+        if g.kind.get(t) != "test":
+            continue
+        p = _pol(t, pos, neg, ctx)
+        if p is None:
+            continue
+        br = g.branch(t, p == want)
+        if br and not g.reaches(br, CFG.EXIT):
+            return True
+    return False
+
+
+def _local_func(S, fi, name: str):
+    """the nested function `name` visible from fi (its own nested functions, then those of the enclosing functions)"""
+    f = fi
+    while f is not None:
+        q = f"{f.module}:{f.qual}.{name}"
+        if S.has_func(q):
+            return S.func(q)
+        f = f.parent
+    return None
+
+
+def _callable(S, fi, f):
+    """(parameter names, returned expression, scope) of a callable expression used in fi: a lambda, or a nested function with a straight-line body"""
+    if isinstance(f, ast.Name):
+        d = Ctx(S, fi).local_defs().get(f.id)
+        if isinstance(d, ast.Lambda):
+            f = d
+    if isinstance(f, ast.Lambda):
+        return [a.arg for a in f.args.args], f.body, fi
+    if isinstance(f, ast.Name):
+        h = _local_func(S, fi, f.id)
+        if h is not None:
+            body = [st for st in h.node.body if not (isinstance(st, ast.Expr) and isinstance(st.value, ast.Constant) and isinstance(st.value.value, str))]
+            if body and isinstance(body[-1], ast.Return) and body[-1].value is not None and all(isinstance(st, (ast.Assign, ast.AnnAssign)) for st in body[:-1]):
+                return h.params(), Ctx(S, h).resolve(body[-1].value, keep=set(h.params()), helpers=False), h
+    return None
+
+
+def _cidx(sl):
+    if isinstance(sl, ast.Constant) and isinstance(sl.value, int) and not isinstance(sl.value, bool):
+        return sl.value
+    if isinstance(sl, ast.UnaryOp) and isinstance(sl.op, ast.USub) and isinstance(sl.operand, ast.Constant) and isinstance(sl.operand.value, int):
+        return -sl.operand.value
+    return None
+
+
+def _subst(node, bind):
+    if not bind:
+        return node
+
+    class Sb(ast.NodeTransformer):
+        def visit_Name(self, x):
+            if isinstance(x.ctx, ast.Load) and x.id in bind:
+                return copy.deepcopy(bind[x.id])
+            return x
+    return Sb().visit(copy.deepcopy(node))
+
+
+def _stores(fi, name: str) -> list:
+    """statements of fi (own scope) that bind `name`"""
+    out = []
+    for st in own_nodes(fi.node):
+        tg = []
+        if isinstance(st, ast.Assign):
+            tg = st.targets
+        elif isinstance(st, (ast.AnnAssign, ast.AugAssign)) and getattr(st, "value", None) is not None:
+            tg = [st.target]
+        elif isinstance(st, (ast.For, ast.comprehension)):
+            tg = [st.target]
+        elif isinstance(st, ast.NamedExpr):
+            tg = [st.target]
+        if any(isinstance(x, ast.Name) and x.id == name for t in tg for x in ast.walk(t)):
+            out.append(st)
+    return out
+
+
+def _elem(S, fi, e, bind=None, depth: int = 0):
+    """(producer, call, k) when expression e (in function fi) denotes element k of the tuple returned by self.<producer>(...): directly
+    `self.findMatching(x)[k]`, through a local helper that unpacks and re-packs the tuple, or through tuple unpacking / a copy"""
+    if depth > 6:
+        return None
+    if isinstance(e, ast.Subscript) and _cidx(e.slice) is not None:
+        k, base = _cidx(e.slice), e.value
+        while isinstance(base, ast.Call) and isinstance(base.func, ast.Name) and base.func.id in ("list", "tuple") and len(base.args) == 1 and not base.keywords:
+            base = base.args[0]
+        if isinstance(base, ast.Subscript) and isinstance(base.slice, ast.Slice) and base.slice.upper is None and base.slice.step is None \
+                and base.slice.lower is not None and _cidx(base.slice.lower) is not None and _cidx(base.slice.lower) >= 0 and k >= 0:
+            # (matching[a:])[k] == matching[a + k]
+            return _elem(S, fi, ast.Subscript(value=base.value, slice=ast.Constant(value=_cidx(base.slice.lower) + k), ctx=ast.Load()), bind, depth + 1)
+        if isinstance(base, ast.Call):
+            f = base.func
+            if isinstance(f, ast.Attribute) and isinstance(f.value, ast.Name) and f.value.id == "self" and f.attr in PRODUCERS:
+                return (f.attr, _subst(base, bind), k % 4) if -4 <= k < 4 else None
+            if isinstance(f, ast.Name) and not base.keywords:
+                c = _callable(S, fi, f)
+                if c is not None and isinstance(c[1], (ast.List, ast.Tuple)) and -len(c[1].elts) <= k < len(c[1].elts) and len(c[0]) == len(base.args):
+                    return _elem(S, c[2], c[1].elts[k], dict(zip(c[0], [_subst(a, bind) for a in base.args])), depth + 1)
+                if c is not None and len(c[0]) == len(base.args) and not isinstance(c[1], (ast.List, ast.Tuple)):
+                    # the helper hands on (a slice of) the tuple itself
+                    return _elem(S, c[2], ast.Subscript(value=c[1], slice=e.slice, ctx=ast.Load()), dict(zip(c[0], [_subst(a, bind) for a in base.args])), depth + 1)
+            return None
+        if isinstance(base, ast.Name) and not (bind and base.id in bind):
+            st = _stores(fi, base.id)
+            if len(st) == 1 and isinstance(st[0], ast.Assign) and len(st[0].targets) == 1 and isinstance(st[0].targets[0], ast.Name):
+                return _elem(S, fi, ast.Subscript(value=st[0].value, slice=e.slice, ctx=ast.Load()), bind, depth + 1)
+        return None
+    if isinstance(e, ast.Name) and not (bind and e.id in bind):
+        st = _stores(fi, e.id)
+        if len(st) != 1 or not isinstance(st[0], ast.Assign) or len(st[0].targets) != 1:
+            return None
+        t, v = st[0].targets[0], st[0].value
+        if isinstance(t, (ast.Tuple, ast.List)):
+            pos = [i for i, x in enumerate(t.elts) if isinstance(x, ast.Name) and x.id == e.id]
+            if len(pos) == 1 and not any(isinstance(x, ast.Starred) for x in t.elts):
+                return _elem(S, fi, ast.Subscript(value=v, slice=ast.Constant(value=pos[0]), ctx=ast.Load()), bind, depth + 1)
+            return None
+        if isinstance(t, ast.Name):
+            return _elem(S, fi, v, bind, depth + 1)
+    return None
+
+
+def _elem_minus_bound(S, scope, ret, bounds):
+    """ret is (a spelling of) `<element k of a matching> - <bound>`: ((producer, call, k), bound) else None"""
+    for x in ast.walk(ret):
+        if isinstance(x, (ast.Subscript, ast.Name)):
+            el = _elem(S, scope, x)
+            if el is None:
+                continue
+            for b in bounds:
+                if same(ret, ast.BinOp(left=x, op=ast.Sub(), right=parse_pattern(b))):
+                    return el, b
+    return None
+
+
+def _side_conflicts(S, fq) -> list:
+    """comparisons / differences between a temperature of a matching (element 2 = T+, 3 = T-) and a range bound of the other phase"""
+    out = []
+    scopes = [fq] + [f for f in S.modules[fq.module].funcs.values() if f.parent is not None and (f.parent is fq or (f.parent.parent is fq))]
+    for sc in scopes:
+        for x in own_nodes(sc.node):
+            pair = None
+            if isinstance(x, ast.Compare) and len(x.comparators) == 1:
+                pair = (x.left, x.comparators[0])
+            elif isinstance(x, ast.BinOp) and isinstance(x.op, ast.Sub):
+                pair = (x.left, x.right)
+            if pair is None:
+                continue
+            for a, b in (pair, pair[::-1]):
+                sb = attr_side(dotted(b) or "")
+                if sb is None:
+                    continue
+                el = _elem(S, sc, a) if isinstance(a, (ast.Subscript, ast.Name)) else None
+                sa = ELEM_SIDE.get(el[2]) if el else None
+                if sa and sa != sb:
+                    out.append((x, f"`{n(x)}` relates a T{sa} value (element {el[2]} of {el[0]}) to a T{sb} bound"))
+    return out
+
+
+# ------------------------------------------------------------------------------------------------ rules
 
 
 def r06_1(chk: Check):
     S = chk.src
     ex, fj, vpvm, vpovm = junction_terms(S)
     fo = S.func(f"{HY}.findJouguetVelocity")
-    fd = S.func(f"{HY}.findJouguetVelocity.vpDerivNum")
+    cxo = Ctx(S, fo)
+    roots = calls_in(fo.node, "root_scalar")
+    fnames = {kwarg(c, "f", 0).id if isinstance(kwarg(c, "f", 0), ast.Name) else None for c in roots}
+    if not roots or len(fnames) != 1 or None in fnames:
+        raise AnchorMissing("findJouguetVelocity: the root_scalar call(s) on one local function not found")
+    DN = fnames.pop()
+    fd = _local_func(S, fo, DN)
+    if fd is None or len(fd.params()) != 1:
+        raise AnchorMissing("findJouguetVelocity: the local one-parameter function handed to root_scalar not found")
     chk.touch(fo.name, fd.name)
     exo = hydro_extractor(S)
     outer = {"__module__": "hydrodynamics", "__class__": "Hydrodynamics"}
     for st in fo.node.body:
-        if isinstance(st, ast.FunctionDef):
+        # the straight-line prologue (the closure may be defined before or after the data it captures)
+        if isinstance(st, ast.FunctionDef) or (isinstance(st, ast.Expr) and isinstance(st.value, ast.Constant)):
+            continue
+        if not isinstance(st, (ast.Assign, ast.AnnAssign)):
             break
         for e_, g_, o_ in exo.stmt(st, outer, [], 0):
             outer = e_
     Tn = exo.sym("self.Tnucl")
-    chk.ob("R06.1", fo.where(), "the high-T data of the Jouguet condition are p+(Tn), e+(Tn) (undisturbed plasma in front of a detonation)",
-           outer.get("pHighT") == th("pHighT")(Tn) and outer.get("eHighT") == th("eHighT")(Tn), f"{outer.get('pHighT')}, {outer.get('eHighT')}",
-           key="front-data")
-    val = exo.single(fd, None, outer)
     tm = exo.sym("tm")
-    pLf, eLf = sp.Function("pLf"), sp.Function("eLf")
+    val = exo.single(fd, {fd.params()[0]: tm}, outer)
     pH, eH = th("pHighT")(Tn), th("eHighT")(Tn)
+    front = {a for a in val.atoms(sp.Function) if isinstance(a, sp.core.function.AppliedUndef) and a.func.__name__.startswith("thermodynamics.") and a.func.__name__.endswith("HighT")}
+    chk.ob("R06.1", fo.where(), "the high-T data of the Jouguet condition are p+(Tn), e+(Tn) (undisturbed plasma in front of a detonation)",
+           front == {pH, eH}, str(sorted(map(str, front))), key="front-data")
+    pLf, eLf = sp.Function("pLf"), sp.Function("eLf")
     N = (pH - pLf(tm)) * (pH + eLf(tm))
     D = (eH - eLf(tm)) * (eH + pLf(tm))
     ref = sp.diff(N, tm) * D - N * sp.diff(D, tm)
@@ -49,35 +263,43 @@ def r06_1(chk: Check):
     ok, how = is_zero(val - ref, chk.seed)
     chk.ob("R06.1", fd.where(), "vpDerivNum == N' D - N D' for v+^2 = N/D, N = (p+ - p-)(p+ + e-), D = (e+ - e-)(e+ + p-), with p-' = dpLowT, e-' = deLowT",
            ok, how, key="numerator", how=how)
+    # the result object(s) of the root solve, and what counts as "the root"
+    RES = {st.targets[0].id for st in own_nodes(fo.node) if isinstance(st, ast.Assign) and st.value in roots and isinstance(st.targets[0], ast.Name)}
+
+    def is_root(name: str, depth=0) -> bool:
+        if name.endswith(".root") and name[:-5] in RES:
+            return all(isinstance(s_, ast.Assign) and s_.value in roots for s_ in _stores(fo, name[:-5]))
+        st = _stores(fo, name) if "." not in name else []
+        return bool(st) and depth < 3 and all(isinstance(s_, (ast.Assign, ast.AnnAssign)) and s_.value is not None and dotted(s_.value) is not None
+                                               and is_root(dotted(s_.value), depth + 1) for s_ in st)
     # returned value
     rets = [r for r in own_nodes(fo.node) if isinstance(r, ast.Return)]
-    defs = {}
-    for st in own_nodes(fo.node):
-        if isinstance(st, ast.Assign) and isinstance(st.targets[0], ast.Name):
-            defs.setdefault(st.targets[0].id, []).append(st.value)
     okr = None
     how = "return value not understood"
     if len(rets) == 1:
-        e = rets[0].value
-        env2 = dict(outer)
-        # resolve `vp = np.sqrt(...)` ; return float(vp)
-        tgt = e
-        while isinstance(tgt, ast.Call) and n(tgt.func) == "float":
-            tgt = tgt.args[0]
-        if isinstance(tgt, ast.Name) and tgt.id in defs:
-            tgt = defs[tgt.id][-1]
-        v = exo.expr(tgt, env2)
-        ts = exo.sym("tmSol")
-        Tp, Tm = ex.sym("Tp"), ex.sym("Tm")
-        A = drop_ite(vpvm * vpovm).subs({Tp: Tn, Tm: ts}, simultaneous=True)
-        okr, how = is_zero(sp.expand(v**2) - A, chk.seed) if isinstance(v, sp.Basic) else (None, how)
+        v = exo.expr(cxo.resolve(rets[0].value), dict(outer))
+        if isinstance(v, sp.Basic):
+            # the temperature behind the wall at which the low-T data are taken
+            tms = {a.args[0] for a in v.atoms(sp.Function) if isinstance(a, sp.core.function.AppliedUndef) and a.func.__name__ in ("thermodynamics.pLowT", "thermodynamics.eLowT")}
+            if len(tms) == 1 and isinstance(next(iter(tms)), sp.Symbol) and is_root(next(iter(tms)).name):
+                ts = tms.pop()
+                Tp, Tm = ex.sym("Tp"), ex.sym("Tm")
+                A = drop_ite(vpvm * vpovm).subs({Tp: Tn, Tm: ts}, simultaneous=True)
+                okr, how = is_zero(sp.expand(v**2) - A, chk.seed)
+            else:
+                okr, how = False, f"low-T data are not taken at the root of the Jouguet condition: {sorted(map(str, tms))}"
     chk.ob("R06.1", fo.where(), "the returned vJ satisfies vJ^2 == vpvm*vpovm(Tn, T-sol): it is v+ (= vw) of the detonation at the stationary point", okr, how,
            key="vJ-value", how=how)
-    roots = calls_in(fo.node, "root_scalar")
-    ok = len(roots) == 2 and all(n(c.args[0]) == "vpDerivNum" for c in roots)
-    chk.ob("R06.1", fo.where(), "T-sol is the root of vpDerivNum (bracketed or secant) and a non-converged root raises", ok and
-           any(isinstance(x, ast.Raise) for x in own_nodes(fo.node)), key="root")
-    okb = any(n(kwarg(c, "bracket")).replace(" ", "") == "[self.Tnucl,Tmax]" for c in roots if kwarg(c, "bracket") is not None)
+    g = CFG(fo.node)
+    raises = len(RES) == 1 and _never_returns_when(g, f"{next(iter(RES))}.converged", None, False) if RES else False
+    chk.ob("R06.1", fo.where(), "T-sol is the root of vpDerivNum (bracketed or secant) and a non-converged root raises", bool(raises), key="root")
+    okb = False
+    for c in roots:
+        b = kwarg(c, "bracket")
+        if b is not None and isinstance(b, (ast.List, ast.Tuple)) and len(b.elts) == 2 and eqx(b.elts[0], "self.Tnucl", cxo) and isinstance(b.elts[1], ast.Name):
+            # upper end: a local that is always capped by TMaxHydro
+            st = _stores(fo, b.elts[1].id)
+            okb = bool(st) and all(isinstance(s_, ast.Assign) and isinstance(s_.value, ast.Call) and eqx(s_.value.func, "min") and any(eqx(a, "self.TMaxHydro") for a in s_.value.args) for s_ in st)
     chk.ob("R06.1", fo.where(), "the bracket starts at Tn (T- >= Tn for detonations)", okb, key="bracket")
     chk.floor("R06.1", 5)
 
@@ -90,22 +312,34 @@ def r06_2(chk: Check):
     ex = hydro_extractor(S)
     cb = sp.Symbol("cb", positive=True)
     al = sp.Symbol("alpha", positive=True)
-    ps = [p for p in ex.paths(fjv, {"alN": al}) if p.raised is None]
+    pj = [p for p in fjv.params() if p != "self"]
+    if len(pj) != 1:
+        raise AnchorMissing("template findJouguetVelocity(alN): parameter list changed")
+    ps = [p for p in ex.paths(fjv, {pj[0]: al}) if p.raised is None]
     vJ = ps[-1].value
     sub = {ex.sym("self.cb"): cb, ex.sym("self.cb2"): cb**2, ex.sym("self.alN"): al}
     vJ = vJ.subs(sub)
     want = cb * (1 + sp.sqrt(3 * al * (1 - cb**2 + 3 * cb**2 * al))) / (1 + 3 * cb**2 * al)
     ok, how = is_zero(vJ - want, chk.seed)
     chk.ob("R06.2", fjv.where(), "template vJ == cb (1 + sqrt(3 a (1 - cb^2 + 3 cb^2 a)))/(1 + 3 cb^2 a)", ok, how, key="vJ-closed-form", how=how)
-    pd = [p for p in ex.paths(fdt) if p.raised is None]
+    pdt = [p for p in fdt.params() if p != "self"]
+    vw = ex.sym("vw")
+    pd = [p for p in ex.paths(fdt, {pdt[0]: vw} if len(pdt) == 1 else None) if p.raised is None]
     if len(pd) != 1:
         raise Undecided("detonationVAndT: path")
     vp, vm, Tp, Tm = pd[0].value
-    part = pd[0].env.get("part")
-    vw = ex.sym("vw")
-    disc = (part**2 - 4 * ex.sym("self.cb2") * vp**2).subs(sub).subs(vw, want)
+    # v- = (part + sqrt(disc)) / (2 v+): the radicand is the discriminant, `part` the rational part (read off the returned term, not a local)
+    rads = [a for a in vm.atoms(sp.Pow) if a.exp == sp.Rational(1, 2)]
+    if len(rads) != 1:
+        raise Undecided(f"detonationVAndT: v- is not of the form (part + sqrt(disc))/(2 v+): {vm}")
+    r_ = sp.Symbol("r__", positive=True)
+    vm_r = vm.xreplace({rads[0]: r_})
+    coef = sp.simplify(sp.diff(vm_r, r_))
+    part = sp.simplify(2 * vp * vm_r.subs(r_, 0))
+    disc_ok = is_zero(rads[0].base - (part**2 - 4 * ex.sym("self.cb2") * vp**2), chk.seed)[0] and not coef.has(r_)
+    disc = rads[0].base.subs(sub).subs(vw, want)
     ok, how = is_zero(sp.simplify(disc), chk.seed)
-    chk.ob("R06.2", fdt.where(), "at vw = vJ the discriminant of the detonation branch vanishes (vJ is where the branch begins)", ok, how,
+    chk.ob("R06.2", fdt.where(), "at vw = vJ the discriminant of the detonation branch vanishes (vJ is where the branch begins)", bool(ok) and bool(disc_ok), how,
            key="discriminant", how=how)
     vmJ = vm.subs(sub).subs(vw, want)
     ok, how = is_zero(sp.simplify(vmJ**2 - cb**2), chk.seed)
@@ -114,59 +348,139 @@ def r06_2(chk: Check):
     chk.ob("R06.2", fdt.where(), "at vw = vJ the detonation leaves at the sound speed: v- == cb (Chapman-Jouguet point)", ok, how, key="CJ", how=how)
     chk.ob("R06.2", fdt.where(), "template detonation: v+ = vw, T+ = Tnucl", vp == vw and Tp == ex.sym("self.Tnucl"), f"{vp}, {Tp}", key="deton-front")
     # branch sign: '+' root (weak detonation: v- > cb... the larger root)
-    w = sp.Wild("w")
-    plus = is_zero(vm - (part + sp.sqrt(part**2 - 4 * ex.sym("self.cb2") * vp**2)) / (2 * vp), chk.seed)[0]
+    plus = is_zero(coef - 1 / (2 * vp), chk.seed)[0] and disc_ok
     chk.ob("R06.2", fdt.where(), "template detonation takes the '+' root (weak branch, v- >= cb)", bool(plus), str(vm)[:120], key="weak-root")
     chk.floor("R06.2", 5)
+
+
+def _branch_calls(g: CFG, fi, short: str) -> list:
+    """CFG nodes of fi containing a call of self.<short>"""
+    return [x for x in g.nodes if g.kind.get(x) not in ("def", "handler") and not isinstance(x, (ast.FunctionDef, ast.ClassDef))
+            and any(isinstance(c, ast.Call) and eqx(c.func, f"self.{short}") for c in ast.walk(x))]
 
 
 def r06_3(chk: Check):
     S = chk.src
     fm = S.func(f"{HY}.findMatching")
     chk.touch(fm.name)
-    first = fm.node.body
-    iff = [st for st in fm.node.body if isinstance(st, ast.If)]
-    ok = False
-    if iff:
-        t = iff[0].test
-        ok = n(t).replace(" ", "") == "vwTry>self.vJ" and any(isinstance(c, ast.Call) and n(c.func) == "self.matchDeton" for s_ in iff[0].body for c in ast.walk(s_)) \
-            and not any(isinstance(c, ast.Call) and n(c.func) == "self.matchDeton" for s_ in iff[0].orelse for c in ast.walk(s_))
+    vw = [p for p in fm.params() if p != "self"][0]
+    g = CFG(fm.node)
+    COND, NEG = f"{vw} > self.vJ", f"{vw} <= self.vJ"
+    det, dfl = _branch_calls(g, fm, "matchDeton"), _branch_calls(g, fm, "matchDeflagOrHyb")
+    ok = bool(det) and bool(dfl) and all(_only_when(g, x, COND, NEG, True) for x in det) and all(_only_when(g, x, COND, NEG, False) for x in dfl)
     chk.ob("R06.3", fm.where(), "Hydrodynamics.findMatching takes the detonation branch iff vw > vJ", ok, key="class|Hydrodynamics")
     ft = S.func(f"{TM}.findMatching")
     chk.touch(ft.name)
-    iff = [st for st in ft.node.body if isinstance(st, ast.If)]
-    ok = bool(iff) and n(iff[0].test).replace(" ", "") == "vw>self.vJ" and any(isinstance(s_, ast.Return) and "detonationVAndT" in n(s_) for s_ in iff[0].body)
+    vwt = [p for p in ft.params() if p != "self"][0]
+    gt = CFG(ft.node)
+    det = _branch_calls(gt, ft, "detonationVAndT")
+    dfl = _branch_calls(gt, ft, "_shooting") + _branch_calls(gt, ft, "_findTm")
+    ok = bool(det) and bool(dfl) and all(_only_when(gt, x, f"{vwt} > self.vJ", f"{vwt} <= self.vJ", True) for x in det) \
+        and all(_only_when(gt, x, f"{vwt} > self.vJ", f"{vwt} <= self.vJ", False) for x in dfl)
     chk.ob("R06.3", ft.where(), "template findMatching takes the detonation branch iff vw > vJ", ok, key="class|template")
     fe = S.func("equationOfMotion:EOM.solveWall")
+    ge = CFG(fe.node)
+    ce = Ctx(S, fe)
+    # the reported velocity: the `wallVelocity` handed to results.setWallVelocities
+    rep = [kwarg(c, "wallVelocity", 0) for c in calls_in(fe.node, "setWallVelocities")]
+    rep = [a for a in rep if a is not None and not (isinstance(a, ast.Constant) and a.value is None)]
     okc = False
-    for guards, st in walk_guarded(fe.node):
-        if isinstance(st, ast.Assign) and n(st.targets[0]) == "solutionType" and "DETONATION" in n(st.value):
-            okc = any(pol and n(t).replace(" ", "") == "wallVelocity>self.hydrodynamics.vJ" for t, pol in guards if not isinstance(t, tuple))
+    if len(rep) == 1:
+        WV = n(rep[0])
+        POS, NEG = f"{WV} > self.hydrodynamics.vJ", f"{WV} <= self.hydrodynamics.vJ"
+        lab = [x for x in ge.nodes if isinstance(x, ast.Assign) and eqx(x.value, "ESolutionType.DETONATION")]
+        okc = len(lab) == 1 and _only_when(ge, lab[0], POS, NEG, True, ce)
+        if not lab:
+            # conditional expression: label = DETONATION if v > vJ else <other>
+            sel = [x.value for x in ge.nodes if isinstance(x, ast.Assign) and isinstance(x.value, ast.IfExp) and has(x.value, "ESolutionType.DETONATION")]
+            okc = len(sel) == 1 and ((_pol(sel[0].test, POS, NEG, ce) is True and eqx(sel[0].body, "ESolutionType.DETONATION") and not has(sel[0].orelse, "ESolutionType.DETONATION"))
+                                     or (_pol(sel[0].test, POS, NEG, ce) is False and eqx(sel[0].orelse, "ESolutionType.DETONATION") and not has(sel[0].body, "ESolutionType.DETONATION")))
     chk.ob("R06.3", fe.where(), "the wall solver labels a solution DETONATION iff its velocity exceeds vJ", okc, key="class|EOM")
     fw = S.func("equationOfMotion:EOM.wallPressure")
-    okw = any(isinstance(st, ast.If) and n(st.test).replace(" ", "") == "wallVelocity>self.hydrodynamics.vJ" for st in own_nodes(fw.node))
+    wv = [p for p in fw.params() if p != "self"][0]
+    gw = CFG(fw.node)
+    okw = any(isinstance(t, ast.Compare) and _pol(t, f"{wv} > self.hydrodynamics.vJ", f"{wv} <= self.hydrodynamics.vJ", Ctx(S, fw)) is not None for t in own_nodes(fw.node))
     chk.ob("R06.3", fw.where(), "the pressure iteration switches algorithm at the same threshold", okw, key="class|wallPressure")
     chk.floor("R06.3", 4)
+
+
+def _is_vm(e, vwname: str, cx) -> bool:
+    return e is not None and (eqx(e, f"min(self.cb, {vwname})", cx) or eqx(e, f"min({vwname}, self.cb)", cx))
+
+
+def _vm_args(S, f_, cx, vwname: str) -> tuple[int, list]:
+    """the values handed as v- (parameter `vm`) to the template's matching helpers inside f_: (count, the ones that are not min(cb, vw))"""
+    HELP = {"_findTm": 0, "_eqWall": 1, "getVp": 0}
+    bad, cnt = [], 0
+    for c in own_nodes(f_.node):
+        if isinstance(c, ast.Call) and isinstance(c.func, ast.Attribute) and isinstance(c.func.value, ast.Name) and c.func.value.id == "self" and c.func.attr in HELP:
+            a = kwarg(c, "vm", HELP[c.func.attr])
+            if a is None:
+                continue
+            cnt += 1
+            if not _is_vm(a, vwname, cx):
+                bad.append(n(c))
+    return cnt, bad
 
 
 def r06_4(chk: Check):
     S = chk.src
     ft = S.func(f"{TM}.findMatching")
-    vm_defs = [st for st in own_nodes(ft.node) if isinstance(st, ast.Assign) and n(st.targets[0]) == "vm"]
-    ok = len(vm_defs) == 1 and n(vm_defs[0].value).replace(" ", "") in ("min(self.cb,vw)", "min(vw,self.cb)")
-    chk.ob("R06.4", ft.where(), "template: v- = min(cb, vw)", ok, key="vm|template")
+    ct = Ctx(S, ft)
+    vw = [p for p in ft.params() if p != "self"][0]
+    # v- of the deflagration / hybrid branch: element 1 of the returned (v+, v-, T+, T-), and the v- handed to _findTm
+    rets = [r for r in own_nodes(ft.node) if isinstance(r, ast.Return) and isinstance(r.value, ast.Tuple) and len(r.value.elts) == 4
+            and not all(isinstance(e, ast.Constant) and e.value is None for e in r.value.elts)]
+    cnt, bad = _vm_args(S, ft, ct, vw)
+    ok = len(rets) >= 1 and all(_is_vm(r.value.elts[1], vw, ct) for r in rets) and cnt >= 1 and not bad
+    chk.ob("R06.4", ft.where(), "template: v- = min(cb, vw)", ok, "; ".join(bad), key="vm|template")
     for name in ("solveAlpha", "_shooting", "matchDeflagOrHybInitial"):
         f_ = S.func(f"{TM}.{name}")
         chk.touch(f_.name)
-        d = [st for st in own_nodes(f_.node) if isinstance(st, ast.Assign) and n(st.targets[0]) == "vm"]
-        ok = len(d) == 1 and n(d[0].value).replace(" ", "") in ("min(self.cb,vw)", "min(vw,self.cb)")
-        chk.ob("R06.4", f_.where(), f"template {name}: v- = min(cb, vw)", ok, key=f"vm|{name}")
+        cx = Ctx(S, f_)
+        pw = [p for p in f_.params() if p != "self"][0]
+        cnt, bad = _vm_args(S, f_, cx, pw)
+        ok = cnt >= 1 and not bad
+        if name == "solveAlpha":
+            # ... and the (vm, branch) argument tuple of the root solve over _eqWall
+            rs = [c for c in calls_in(f_.node, "root_scalar")]
+            arg = kwarg(rs[0], "args", 1) if len(rs) == 1 else None
+            arg = cx.resolve(arg) if arg is not None else None
+            ok = ok and isinstance(arg, ast.Tuple) and len(arg.elts) >= 1 and _is_vm(arg.elts[0], pw, cx)
+        if name == "_shooting":
+            # no helper takes v- here: it enters through alpha_+ = (v+/v- - 1)(v+ v-/cb^2 - 1)/(1 - v+^2)/3 handed to wFromAlpha
+            pv = [p for p in f_.params() if p != "self"][1]
+            wf = [c for c in calls_in(f_.node, "wFromAlpha")]
+            a = kwarg(wf[0], "al", 0) if len(wf) == 1 else None
+            ok = a is not None and bool(same_term(S, "hydrodynamicsTemplateModel", "HydrodynamicsTemplateModel", cx.resolve(a),
+                                                  f"({pv} / min(self.cb, {pw}) - 1) * ({pv} * min(self.cb, {pw}) / self.cb2 - 1) / (1 - {pv}**2) / 3"))
+        chk.ob("R06.4", f_.where(), f"template {name}: v- = min(cb, vw)", ok, "; ".join(bad), key=f"vm|{name}")
     # full solver: the matching residual (R02.2) and the post-solve value (R05.1) use min(vw^2, csqLowT(T-)); here: both sites agree
     fo = S.func(f"{HY}.matchDeflagOrHyb")
-    sites = [x for x in ast.walk(fo.node) if isinstance(x, ast.Assign) and n(x.targets[0]) == "vmsq"]
-    forms = {n(x.value).replace(" ", "").replace("Tpm[1]", "T-").replace("Tm", "T-") for x in sites}
-    chk.ob("R06.4", fo.where(), "both sites of matchDeflagOrHyb set v-^2 = min(vw^2, csqLowT(T-))", len(sites) == 2 and
-           forms == {"min(vw**2,self.thermodynamics.csqLowT(T-))"}, str(forms), key="vm|both-sites")
+    co = Ctx(S, fo)
+    VW = [p for p in fo.params() if p != "self"][0]
+    forms = {}
+    # (a) after the solve: the returned v- (element 1) is sqrt(max(min(vw^2, csqLowT(T-)), 0)) with T- the returned element 3
+    rets = [r for r in own_nodes(fo.node) if isinstance(r, ast.Return) and isinstance(r.value, ast.Tuple) and len(r.value.elts) == 4]
+    if len(rets) == 1 and isinstance(rets[0].value.elts[3], ast.Name):
+        TmN = rets[0].value.elts[3].id
+        forms["post-solve"] = eqx(rets[0].value.elts[1], f"np.sqrt(max(min({VW}**2, self.thermodynamics.csqLowT({TmN})), 0))", co)
+    # (b) inside the residual handed to the 2x2 solver: min(vw^2, csqLowT(T-)) with T- = element 1 of the inverse-mapped unknowns
+    rc = [c for c in calls_in(fo.node, "root") if (dotted(c.func) or "") in ("root", "scipy.optimize.root", "optimize.root")]
+    fres = _local_func(S, fo, kwarg(rc[0], "fun", 0).id) if len(rc) == 1 and isinstance(kwarg(rc[0], "fun", 0), ast.Name) else None
+    if fres is not None and len(fres.params()) == 1:
+        cr = Ctx(S, fres)
+        X = fres.params()[0]
+        mins = [c for c in ast.walk(fres.node) if isinstance(c, ast.Call) and eqx(c.func, "min") and has(c, "self.thermodynamics.csqLowT")]
+        forms["residual"] = len(mins) >= 1 and all(eqx(c, f"min({VW}**2, self.thermodynamics.csqLowT(self._inverseMappingT({X})[1]))", cr) for c in mins)
+        if not forms["residual"]:
+            # unpacked form: (Tp, Tm) = self._inverseMappingT(x)
+            for st in own_nodes(fres.node):
+                if isinstance(st, ast.Assign) and isinstance(st.targets[0], (ast.Tuple, ast.List)) and len(st.targets[0].elts) == 2 and isinstance(st.targets[0].elts[1], ast.Name) \
+                        and eqx(st.value, f"self._inverseMappingT({X})", cr):
+                    forms["residual"] = len(mins) >= 1 and all(eqx(c, f"min({VW}**2, self.thermodynamics.csqLowT({st.targets[0].elts[1].id}))", cr) for c in mins)
+    chk.ob("R06.4", fo.where(), "both sites of matchDeflagOrHyb set v-^2 = min(vw^2, csqLowT(T-))", forms.get("post-solve") is True and forms.get("residual") is True,
+           str(forms), key="vm|both-sites")
     chk.floor("R06.4", 5)
 
 
@@ -174,94 +488,175 @@ def r06_5(chk: Check):
     S = chk.src
     fo = S.func(f"{HY}.matchDeton")
     chk.touch(fo.name)
+    cx = Ctx(S, fo)
+    g = CFG(fo.node)
     mins = calls_in(fo.node, "minimize_scalar")
     roots = calls_in(fo.node, "root_scalar")
-    ok = len(mins) == 1 and len(roots) == 1 and n(mins[0].args[0]) == n(roots[0].args[0]) == "tmFromvpsq"
+    fmin = kwarg(mins[0], "fun", 0) if len(mins) == 1 else None
+    froot = kwarg(roots[0], "f", 0) if len(roots) == 1 else None
+    ok = isinstance(fmin, ast.Name) and isinstance(froot, ast.Name) and fmin.id == froot.id and _local_func(S, fo, fmin.id) is not None
     chk.ob("R06.5", fo.where(), "the detonation root and the bracketing minimisation use the same residual function", ok, key="same-residual")
-    defs = {}
-    for st in own_nodes(fo.node):
-        if isinstance(st, ast.Assign) and isinstance(st.targets[0], ast.Name):
-            defs.setdefault(st.targets[0].id, []).append(n(st.value))
+    M = [st.targets[0].id for st in own_nodes(fo.node) if isinstance(st, ast.Assign) and mins and st.value is mins[0] and isinstance(st.targets[0], ast.Name)]
+    R = [st.targets[0].id for st in own_nodes(fo.node) if isinstance(st, ast.Assign) and roots and st.value is roots[0] and isinstance(st.targets[0], ast.Name)]
     b = kwarg(roots[0], "bracket") if roots else None
-    ok = b is not None and n(b).replace(" ", "") == "[self.Tnucl,Tmax]" and defs.get("Tmax") == ["minimizeResult.x"]
+    ok = b is not None and len(M) == 1 and (eqx(b, f"[self.Tnucl, {M[0]}.x]", cx) or eqx(b, f"(self.Tnucl, {M[0]}.x)", cx))
     chk.ob("R06.5", fo.where(), "the root is bracketed by [Tn, argmin residual]: the weak (lower-temperature) branch", ok, n(b) if b is not None else "",
            key="weak-bracket")
-    bm = kwarg(mins[0], "bounds") if mins else None
-    ok = bm is not None and n(bm).replace(" ", "") == "[self.Tnucl,self.TMaxHydro]"
+    bm = kwarg(mins[0], "bounds", 2) if mins else None
+    ok = bm is not None and (eqx(bm, "[self.Tnucl, self.TMaxHydro]", cx) or eqx(bm, "(self.Tnucl, self.TMaxHydro)", cx))
     chk.ob("R06.5", fo.where(), "the minimisation runs over [Tn, TMaxHydro]", ok, key="min-bounds")
-    raises = [x for x in own_nodes(fo.node) if isinstance(x, ast.If) and any(isinstance(s_, ast.Raise) for s_ in x.body + x.orelse)]
-    chk.ob("R06.5", fo.where(), "no sign change (minimum residual > 0), failed minimisation and non-converged root all raise", len(raises) >= 3,
-           f"{len(raises)} guarded raises", key="raises")
+    r1 = r2 = r3 = False
+    if len(M) == 1 and len(R) == 1:
+        r1 = _never_returns_when(g, f"{M[0]}.fun > 0", f"{M[0]}.fun <= 0", True)
+        r2 = _never_returns_when(g, f"{M[0]}.success", None, False)
+        r3 = _never_returns_when(g, f"{R[0]}.converged", None, False)
+    chk.ob("R06.5", fo.where(), "no sign change (minimum residual > 0), failed minimisation and non-converged root all raise", r1 and r2 and r3,
+           f"minimum > 0 raises: {r1}; failed minimisation raises: {r2}; non-converged root raises: {r3}", key="raises")
     chk.floor("R06.5", 4)
+
+
+def _root_vars(S, fq) -> list:
+    """[(variable assigned `root_scalar(F, ...).root`, the call, F)] of fq"""
+    out = []
+    calls = calls_in(fq.node, "root_scalar")
+    for c in calls:
+        var = None
+        for st in own_nodes(fq.node):
+            if isinstance(st, ast.Assign) and len(st.targets) == 1 and isinstance(st.targets[0], ast.Name):
+                v = st.value
+                if isinstance(v, ast.Attribute) and v.attr == "root" and v.value is c:
+                    var = st.targets[0].id
+                elif v is c:
+                    # result object kept in a local: R = root_scalar(...); the velocity is R.root
+                    var = f"{st.targets[0].id}.root"
+        out.append((var, c, kwarg(c, "f", 0)))
+    return out
 
 
 def r06_6(chk: Check):
     S = chk.src
     ff = S.func(f"{HY}.fastestDeflag")
     chk.touch(ff.name)
+    cf = Ctx(S, ff)
+    BOUNDS = ("self.TMaxLowT", "self.TMaxHighT")
     rets = sorted([r for r in own_nodes(ff.node) if isinstance(r, ast.Return)], key=lambda r: r.lineno)
-    last = rets[-1] if rets else None
-    ok = last is not None and same_term(S, "hydrodynamics", "Hydrodynamics", last.value, "min(vmax1, vmax2)")
-    chk.ob("R06.6", ff.where(), "fastestDeflag returns the smaller of the two range-limited velocities", ok, n(last.value) if last else "", key="fastest|min")
+    # the two range-limited velocities: roots of T-(vw) - TMaxLowT and of T+(vw) - TMaxHighT
+    kinds = {}
+    shown = []
+    for var, c, F in _root_vars(S, ff):
+        cl = _callable(S, ff, F) if F is not None else None
+        hit = _elem_minus_bound(S, cl[2], cl[1], BOUNDS) if cl is not None and len([p for p in cl[0] if p != "self"]) == 1 else None
+        if hit is not None:
+            (prod, call, k), bound = hit
+            shown.append(f"{prod}[{k}] - {bound}")
+            if prod == "findMatching" and eqx(kwarg(call, "vwTry", 0), cl[0][0]):
+                kinds[(k, bound)] = var if (k, bound) not in kinds else None
+        else:
+            shown.append(n(cl[1]) if cl else "?")
+    okc = set(kinds) == {(3, "self.TMaxLowT"), (2, "self.TMaxHighT")} and len(shown) == 2
+    V1, V2 = kinds.get((3, "self.TMaxLowT")), kinds.get((2, "self.TMaxHighT"))
+    early = [r for r in rets if eqx(r.value, "self.vJ")]
+    final = [r for r in rets if r not in early and V1 and V2 and same_term(S, "hydrodynamics", "Hydrodynamics", r.value, f"min({V1}, {V2})")]
+    chk.ob("R06.6", ff.where(), "fastestDeflag returns the smaller of the two range-limited velocities", len(final) >= 1,
+           "; ".join(n(r.value) for r in rets if r not in early), key="fastest|min")
     # vmax1 from the T- root against TMaxLowT, vmax2 from the T+ root against TMaxHighT  (sides: R02.4); here: flags
-    flags = []
-    for guards, st in walk_guarded(ff.node):
-        if isinstance(st, ast.Assign) and "doesPhaseTraceLimitvmax" in n(st.targets[0]) and n(st.value) == "True":
-            g = [n(t) for t, pol in guards if pol and not isinstance(t, (tuple, ast.ExceptHandler))]
-            flags.append((n(st.targets[0]), g[-1] if g else ""))
-    want = {("self.doesPhaseTraceLimitvmax[1]", "not self.thermodynamics.freeEnergyLow.maxPossibleTemperature[1]"),
-            ("self.doesPhaseTraceLimitvmax[0]", "not self.thermodynamics.freeEnergyHigh.maxPossibleTemperature[1]")}
+    g = CFG(ff.node)
+    flags = set()
+    nstores = 0
+    for x in g.nodes:
+        if isinstance(x, ast.Assign) and isinstance(x.targets[0], ast.Subscript) and eqx(x.targets[0].value, "self.doesPhaseTraceLimitvmax") and eqx(x.value, "True"):
+            nstores += 1
+            k = _cidx(x.targets[0].slice)
+            for ph in ("Low", "High"):
+                GEN = f"self.thermodynamics.freeEnergy{ph}.maxPossibleTemperature[1]"
+                if _only_when(g, x, GEN, None, False):
+                    flags.add((k, ph))
     chk.ob("R06.6", ff.where(), "doesPhaseTraceLimitvmax[k] is raised only when phase k's upper range end is not a genuine end of the phase "
-           "(index 0 = high-T, 1 = low-T)", set(flags) == want, str(flags), key="fastest|flags")
-    roots = calls_in(ff.node, "root_scalar")
-    fns = sorted(n(c.args[0]) for c in roots)
-    closures = {f.name: f for f in ast.walk(ff.node) if isinstance(f, ast.FunctionDef)}
-    okc = fns == ["TmMax", "TpMax"] and "TmMax" in closures and "TpMax" in closures
-    detail = ""
-    if okc:
-        tm_ret = [r for r in ast.walk(closures["TmMax"]) if isinstance(r, ast.Return)][0]
-        tp_ret = [r for r in ast.walk(closures["TpMax"]) if isinstance(r, ast.Return)][0]
-        okc = same_term(S, "hydrodynamics", "Hydrodynamics", tm_ret.value, "TpTm(vw)[1] - self.TMaxLowT") and \
-            same_term(S, "hydrodynamics", "Hydrodynamics", tp_ret.value, "TpTm(vw)[0] - self.TMaxHighT")
-        detail = f"{n(tm_ret.value)}; {n(tp_ret.value)}"
-    chk.ob("R06.6", ff.where(), "the two velocities are the roots of T-(vw) = TMaxLowT and T+(vw) = TMaxHighT", okc, detail, key="fastest|roots")
-    early = [r for r in rets if n(r.value) == "self.vJ"]
+           "(index 0 = high-T, 1 = low-T)", flags == {(1, "Low"), (0, "High")} and nstores == 2, str(sorted(flags)), key="fastest|flags")
+    chk.ob("R06.6", ff.where(), "the two velocities are the roots of T-(vw) = TMaxLowT and T+(vw) = TMaxHighT", okc, "; ".join(shown), key="fastest|roots")
     chk.ob("R06.6", ff.where(), "vJ is returned when both temperatures stay inside their ranges just below vJ", len(early) == 1, key="fastest|vJ")
-    other = [r for r in rets if r is not last and r not in early]
+    other = [r for r in rets if r not in final and r not in early]
     chk.ob("R06.6", ff.where(), "fastestDeflag has no other exit: a velocity limited by one phase range is never returned before the other range was examined",
            not other, "; ".join(f"line {r.lineno}: return {n(r.value)}" for r in other), key="fastest|exits")
     for q in ("fastestDeflag", "slowestDeton"):
         fq = S.func(f"{HY}.{q}")
-        conf = SideTyper(fq.node).conflicts()
+        conf = SideTyper(fq.node).conflicts() + _side_conflicts(S, fq)
         chk.ob("R06.6", fq.where(), f"{q}: T- is compared with the low-T range and T+ with the high-T range", not conf,
-               "; ".join(f"line {c.lineno}: {m}" for c, m in conf)[:300], key=f"sides|{q}")
+               "; ".join(sorted({f"line {c.lineno}: {m}" for c, m in conf}))[:300], key=f"sides|{q}")
     fe = S.func("equationOfMotion:EOM.findWallVelocityDeflagrationHybrid")
     chk.touch(fe.name)
-    d = [st for st in own_nodes(fe.node) if isinstance(st, ast.Assign) and n(st.targets[0]) in ("vmax", "vmin")]
-    m = {n(st.targets[0]): n(st.value).replace(" ", "") for st in d}
-    dd = {n(st.targets[0]): st.value for st in d}
-    ok = "vmax" in dd and "vmin" in dd and same_term(S, "equationOfMotion", "EOM", dd["vmax"], "min(self.hydrodynamics.vJ, self.hydrodynamics.fastestDeflag())") \
-        and same_term(S, "equationOfMotion", "EOM", dd["vmin"], "self.hydrodynamics.vMin")
-    chk.ob("R06.6", fe.where(), "the wall solver searches [vMin, min(vJ, fastestDeflag())]", ok, str(m), key="window")
+    ce = Ctx(S, fe)
     call = [c for c in calls_in(fe.node, "solveWall")]
-    ok = len(call) == 1 and [n(a) for a in call[0].args[:2]] == ["vmin", "vmax"]
-    chk.ob("R06.6", fe.where(), "and passes that window to solveWall in (min, max) order", ok, key="window-order")
+    lo = kwarg(call[0], "wallVelocityMin", 0) if len(call) == 1 else None
+    hi = kwarg(call[0], "wallVelocityMax", 1) if len(call) == 1 else None
+    ends = [ce.resolve(a) if a is not None else None for a in (lo, hi)]
+    m = {"vmin": n(ends[0]) if ends[0] is not None else "", "vmax": n(ends[1]) if ends[1] is not None else ""}
+
+    def is_top(e):
+        return e is not None and bool(same_term(S, "equationOfMotion", "EOM", e, "min(self.hydrodynamics.vJ, self.hydrodynamics.fastestDeflag())"))
+
+    def is_bottom(e):
+        return e is not None and bool(same_term(S, "equationOfMotion", "EOM", e, "self.hydrodynamics.vMin"))
+    ok = any(is_top(e) for e in ends) and any(is_bottom(e) for e in ends)
+    chk.ob("R06.6", fe.where(), "the wall solver searches [vMin, min(vJ, fastestDeflag())]", ok, str(m), key="window")
+    chk.ob("R06.6", fe.where(), "and passes that window to solveWall in (min, max) order", is_bottom(ends[0]) and is_top(ends[1]), key="window-order")
     fs = S.func(f"{HY}.slowestDeton")
     chk.touch(fs.name)
-    rets = [n(r.value).replace(" ", "") for r in own_nodes(fs.node) if isinstance(r, ast.Return)]
-    ok = "1" in rets and "self.vJ" in rets and any(r.startswith("float(min(1,vmin+") for r in rets)
-    chk.ob("R06.6", fs.where(), "slowestDeton returns 1, vJ or the range-limited root (plus its safety margin, capped at 1)", ok, str(rets), key="slowest")
+    rets = [r for r in own_nodes(fs.node) if isinstance(r, ast.Return)]
+    rv = _root_vars(S, fs)
+    ok = False
+    shown = [n(r.value) for r in rets]
+    if len(rv) == 1 and rv[0][0]:
+        V, c, F = rv[0]
+        cl = _callable(S, fs, F) if F is not None else None
+        hit = _elem_minus_bound(S, cl[2], cl[1], BOUNDS) if cl is not None and len(cl[0]) == 1 else None
+        okF = hit is not None and hit[0][0] == "findMatching" and hit[0][2] == 3 and hit[1] == "self.TMaxLowT" and eqx(kwarg(hit[0][1], "vwTry", 0), cl[0][0])
+        ex = Extractor(S)
+        env = {"__module__": "hydrodynamics", "__class__": "Hydrodynamics"}
+        margin = False
+        cs = Ctx(S, fs)
+        for r in rets:
+            v = cs.resolve(r.value, keep={V.split(".")[0]}) if r.value is not None else None
+            while isinstance(v, ast.Call) and eqx(v.func, "float") and len(v.args) == 1:
+                v = v.args[0]
+            if isinstance(v, ast.Call) and eqx(v.func, "min") and len(v.args) == 2 and any(eqx(a, "1") for a in v.args):
+                o = [a for a in v.args if not eqx(a, "1")]
+                if len(o) == 1:
+                    try:
+                        d = ex.expr(o[0], dict(env)) - ex.expr(parse_pattern(V), dict(env))
+                        margin = margin or (isinstance(d, sp.Basic) and d.is_number and d > 0)
+                    except Exception:
+                        pass
+        ok = okF and margin and any(eqx(r.value, "1") for r in rets) and any(eqx(r.value, "self.vJ") for r in rets)
+    chk.ob("R06.6", fs.where(), "slowestDeton returns 1, vJ or the range-limited root (plus its safety margin, capped at 1)", ok, str(shown), key="slowest")
     roots = calls_in(fs.node, "root_scalar")
-    ok = len(roots) == 1 and n(kwarg(roots[0], "bracket")).replace(" ", "").startswith("[self.vJ+")
+    ok = False
+    if len(roots) == 1:
+        b = kwarg(roots[0], "bracket")
+        b = Ctx(S, fs).resolve(b) if b is not None else None
+        if isinstance(b, (ast.List, ast.Tuple)) and len(b.elts) == 2:
+            try:
+                ex = Extractor(S)
+                env = {"__module__": "hydrodynamics", "__class__": "Hydrodynamics"}
+                d = ex.expr(b.elts[0], dict(env)) - ex.sym("self.vJ")
+                ok = isinstance(d, sp.Basic) and d.is_number and bool(d > 0)
+            except Exception:
+                ok = False
     chk.ob("R06.6", fs.where(), "its root is searched above vJ only", ok, key="slowest|bracket")
     fi = S.func(f"{HY}.__init__")
-    d = [st for st in own_nodes(fi.node) if isinstance(st, ast.Assign) and n(st.targets[0]) == "self.vMin"]
-    ok = len(d) == 1 and same_term(S, "hydrodynamics", "Hydrodynamics", d[0].value, "max(self.vBracketLow, self.minVelocity())")
+    d = [st for st in own_nodes(fi.node) if isinstance(st, ast.Assign) and eqx(st.targets[0], "self.vMin")]
+    ok = len(d) == 1 and same_term(S, "hydrodynamics", "Hydrodynamics", Ctx(S, fi).resolve(d[0].value), "max(self.vBracketLow, self.minVelocity())")
     chk.ob("R06.6", fi.where(), "vMin = max(vBracketLow, minVelocity())", ok, key="vMin")
     fmn = S.func(f"{HY}.minVelocity")
     chk.touch(fmn.name)
+    cm = Ctx(S, fmn)
     roots = calls_in(fmn.node, "root_scalar")
-    ok = len(roots) == 1 and n(roots[0].args[0]) == "strongestshockTnucl" and n(kwarg(roots[0], "bracket")).replace(" ", "") == "(self.vBracketLow,self.vJ)"
+    ok = False
+    if len(roots) == 1:
+        cl = _callable(S, fmn, kwarg(roots[0], "f", 0)) if kwarg(roots[0], "f", 0) is not None else None
+        b = kwarg(roots[0], "bracket")
+        ok = cl is not None and len(cl[0]) == 1 and eqx(cl[1], f"self.strongestShock({cl[0][0]}) - self.Tnucl", Ctx(S, cl[2])) \
+            and b is not None and (eqx(b, "(self.vBracketLow, self.vJ)", cm) or eqx(b, "[self.vBracketLow, self.vJ]", cm))
     chk.ob("R06.6", fmn.where(), "minVelocity is the root of strongestShock(vw) - Tnucl on (vBracketLow, vJ); 0 when there is none", ok, key="minVelocity")
     chk.floor("R06.6", 13)
 
